@@ -259,8 +259,8 @@ def run_check(mod, tier, seed, workers=None, keep_digests=False, extra_env=None,
                 print(ln)
         if harness:
             print(f"HARNESS-FAILURE property={prop}: {len(harness)} problem(s)")
-            for h in harness[:5]:
-                print("  " + h.replace("\n", "\n  "))
+            for h in harness[:3]:
+                print("  " + h[-700:].replace("\n", "\n  "))
             return 2, evidence, digests
         if ev_n == 0:
             print(f"HARNESS-FAILURE property={prop}: no runs executed")
